@@ -701,3 +701,45 @@ package mail
 //@   ensures[C10:no-structural-generic-header] sgkept(msg)
 //@ func mail.parseEMLMultipart (params, bodybuf, msg) (err)
 //@   requires[C10:wf] msg != nil
+
+// ---------------------------------------------------------------------------
+// C01  Structure of the rendered message: one leaf per part / embed / attachment, never two entities at the top level
+//
+// mw.top (ghost) counts the MIME entities whose header block is written at nesting depth 0, i.e. directly
+// after the message header. More than one means that the second entity's header block lands in the body of
+// the first (the leaf is lost for every MIME reader). world.lastlive is the index of the body part that was
+// written at the top level.
+//@ ghost field top int
+//@ ghost field lastlive int
+//@ pred plive(p *mail.Part) = !p.isDeleted && !p.smime
+//@ pred atmostonelive(m *mail.Msg) = forall i, j :: 0 <= i && i < j && j < len(m.parts) ==> !(plive(m.parts[i]) && plive(m.parts[j]))
+//@ pred pgpok(m *mail.Msg) = 0 <= m.pgptype && m.pgptype <= 2
+//@ func mail.Msg.hasAlt () (r)
+//@   requires[C01:wf] m != nil && (forall i :: 0 <= i && i < len(m.parts) ==> m.parts[i] != nil)
+//@   ensures[C01:no-alternative-means-one-body] (!r && m.pgptype == 0) ==> atmostonelive(m)
+//@   loop 1 invariant[C01:count] 0 <= count && 0 <= rangeindex + 1 && (count <= 1 ==> (forall k, l :: 0 <= k && k < l && l <= rangeindex && l < len(m.parts) ==> !(plive(m.parts[k]) && plive(m.parts[l])))) && (count == 0 ==> (forall k :: 0 <= k && k <= rangeindex && k < len(m.parts) ==> !plive(m.parts[k])))
+//@ func mail.Msg.hasMixed () (r)
+//@   requires[C01:wf] m != nil
+//@   ensures[C01:no-mixed-means-nothing-beside-an-attachment] (!r && m.pgptype == 0) ==> (len(m.attachments) <= 1 && (len(m.attachments) == 0 || (len(m.parts) == 0 && len(m.embeds) == 0)))
+//@ func mail.Msg.hasRelated () (r)
+//@   requires[C01:wf] m != nil
+//@   ensures[C01:no-related-means-nothing-beside-an-embed] (!r && m.pgptype == 0) ==> (len(m.embeds) <= 1 && (len(m.embeds) == 0 || len(m.parts) == 0))
+//@ func mail.Msg.hasPGPType () (r)
+//@   requires[C01:wf] m != nil
+//@   ensures[C01:def] r == (m.pgptype > 0)
+//@ at mail.msgWriter.writePart mail.msgWriter.writeHeader#1 before ghost[C01:g] mw.top = mw.top + 1
+//@ func mail.msgWriter.writePart (part, charset)
+//@   requires[C01:single-top-leaf] mw.depth == 0 ==> mw.top == 0
+//@   ensures[C01:top-count] mw.top == old(mw.top) + (old(mw.depth) == 0 ? 1 : 0)
+//@ at mail.msgWriter.addFiles sort.Strings#1 before ghost[C01:g] mw.top = mw.top + 1
+//@ func mail.msgWriter.addFiles (files, isAttachment)
+//@   requires[C01:single-top-leaf] mw.depth == 0 ==> mw.top + len(files) <= 1
+//@   ensures[C01:top-count] mw.top == old(mw.top) + (old(mw.depth) == 0 ? len(files) : 0)
+//@   loop 1 invariant[C01:top-count] 0 <= rangeindex + 1 && rangeindex + 1 <= len(files) && mw.depth == old(mw.depth) && mw.top == old(mw.top) + (old(mw.depth) == 0 ? rangeindex + 1 : 0)
+//@ at mail.msgWriter.writeMsg entry ghost[C01:g] mw.top = 0
+//@ at mail.msgWriter.writeMsg mail.msgWriter.writePart#2 after ghost[C01:g] world.lastlive = loopidx(3) + 1
+//@ func mail.msgWriter.writeMsg (msg)
+//@   requires[C01:wf] pgpok(msg)
+//@   ensures[C01:single-top-leaf] mw.top <= 1
+//@   loop 3 invariant[C01:top] 0 <= mw.top && mw.top <= 1 && (mw.depth > 0 ==> mw.top == 0) && (mw.depth == 0 ==> (atmostonelive(msg) && (mw.top == 1 ==> (0 <= world.lastlive && world.lastlive <= rangeindex && world.lastlive < len(msg.parts) && plive(msg.parts[world.lastlive])))))
+//@   loop 4 invariant[C01:top] 0 <= mw.top && mw.top <= 1 && mw.depth >= 1
